@@ -1,27 +1,60 @@
 package hostkit
 
 import (
+	"io"
+	"log"
+	"sort"
+
 	"github.com/smarthome-go/homescript/v3/homescript/analyzer/ast"
 	"github.com/smarthome-go/homescript/v3/homescript/fuzzer"
 
 	"verif/sb"
 )
 
-// transformOp produces the variants of the entry module the way the fuzz tool chain does:
-// TransformPasses on the analysed entry module, each variant serialised with String().
+// transformOp produces the variants of the entry module the way the fuzz tool chain does, each variant serialised
+// with String(): TransformPasses on the analysed entry module; Transform called directly pass after pass; or the
+// Generator (`homescript fuzz gen`), which calls Transform itself and hands every new variant to a callback.
 func transformOp(req *sb.Request, resp *sb.Response, mods map[string]ast.AnalyzedProgram) *sb.Response {
-	tr := fuzzer.NewTransformer(req.Seed)
 	passes := req.Passes
 	if passes < 1 {
 		passes = 1
 	}
-	variants := tr.TransformPasses(mods[req.Entry], passes)
-	for _, v := range variants {
+	var texts []string
+	switch req.Via {
+	case "transform":
+		tr := fuzzer.NewTransformer(req.Seed)
+		tree := mods[req.Entry]
+		for i := 0; i < passes; i++ {
+			tree = tr.Transform(tree)
+			texts = append(texts, tree.String())
+		}
+	case "generator":
+		log.SetOutput(io.Discard)
+		seen := map[string]bool{}
+		g := fuzzer.NewGenerator(mods[req.Entry], func(_ ast.AnalyzedProgram, text string, _ string) error {
+			seen[text] = true
+			return nil
+		}, req.Seed, uint(passes), 4, 12, false, 1)
+		g.Gen()
+		for t := range seen {
+			texts = append(texts, t)
+		}
+		sort.Strings(texts)
+		if len(texts) > 24 {
+			texts = texts[:24]
+		}
+	default:
+		tr := fuzzer.NewTransformer(req.Seed)
+		for _, v := range tr.TransformPasses(mods[req.Entry], passes) {
+			texts = append(texts, v.String())
+		}
+	}
+	for _, v := range texts {
 		m := map[string]string{}
 		for name, text := range req.Modules {
 			m[name] = text
 		}
-		m[req.Entry] = v.String()
+		m[req.Entry] = v
 		resp.Variants = append(resp.Variants, m)
 	}
 	return resp
